@@ -331,6 +331,14 @@ func (v *vfE3Node) RunConn(stream []byte, rnd *vfRand) vfE3Result {
 			break // what follows is compressed / encrypted
 		}
 	}
+	for i := 0; i+1 < len(res.replies); i++ {
+		// a TLS / compression upgrade that was negotiated (JSON sent) and then failed on the garbage
+		// that follows is still "upgraded" for the model: what happens after the negotiation is outside it
+		if res.replies[i] == "JSON" && res.replies[i+1] == "E_IDENTIFY_FAILED" {
+			res.replies = res.replies[:i+1]
+			upgraded = true
+		}
+	}
 	switch {
 	case upgraded:
 		res.end = "upgraded"
